@@ -204,6 +204,12 @@ class World:
             t.stream.meta = tf.base_meta(l.name, t.proc.pid, t.tid, app_id=t.proc.appid, require=treq,
                                          cpus=[(c.index, c.phyid) for c in l.cpus],
                                          rank=t.proc.rank, nranks=t.proc.nranks, extra=extra)
+            if getattr(self, "require_split", None) and len(self.threads) >= 2:
+                # the base model is always on: a thread need not list it either, as long as somebody does
+                rr = _Rng(self.require_split).derive("ovni")
+                keep = rr.below(len(self.threads))
+                if self.threads.index(t) != keep and rr.derive(str(self.threads.index(t))).chance(40):
+                    del t.stream.meta["ovni"]["require"]["ovni"]
 
     def describe(self):
         return {"looms": [{"name": l.name, "skew": l.skew, "cpus": [(c.index, c.phyid) for c in l.cpus],
